@@ -20,7 +20,10 @@ Inductive hcase :=
 | CValue (secret key : bytes) (ver : N) (val : bytes)          (* prepare_value_for_put *)
 | CGet (secret key : bytes) (ver : N) (stored : bytes)         (* process_value_from_get *)
 | CPair (secret : bytes) (a b : input)                         (* two inputs with one tag *)
-| CNonces (ns : list bytes).      (* the nonces of one client's consecutive reads, as sent *)
+| CNonces (ns : list bytes)       (* the nonces of one client's consecutive reads, as sent *)
+| CInit (secret nonce : bytes) (rs : list record) (tag : bytes).
+    (* init_state / new_nonce + get + check_hmac: the reply (rs, tag) as delivered to a read that
+       sent [nonce] *)
 
 Definition cls_code (c : option cls) : N :=
   match c with
@@ -56,7 +59,8 @@ Fixpoint index_of {A} (e : A -> bool) (i : N) (l : list A) : N :=
     - CGet   : [] when shorter than 32, else [key; message; claimed tag; value]
                (accept, returning value, iff claimed tag = mac key message)
     - CPair  : [[serialisations equal]; [class]; [inputs equal]; [index in witnesses]]
-    - CNonces: [[nonces_fresh]]                    (the premise of the replay theorems) *)
+    - CNonces: [[nonces_fresh]]                    (the premise of the replay theorems)
+    - CInit  : [key; message; delivered tag]       (accept, returning rs, iff tag = mac key message) *)
 Definition hquery (c : hcase) : list bytes :=
   match c with
   | CShared s n rs => [s; ser_shared s n rs]
@@ -73,4 +77,5 @@ Definition hquery (c : hcase) : list bytes :=
         [b2n (beq a b)];
         [index_of (fun w => beq w (a, b)) 1 witnesses] ]
   | CNonces ns => [[b2n (nonces_fresh ns)]]
+  | CInit s n rs t => [s; ser_shared s n rs; t]
   end.
